@@ -32,10 +32,10 @@ Definition veq_map (mb : list (str * value)) :=
   fix go (ma : list (str * value)) : res bool :=
     match ma with
     | (k, v) :: ma' =>
-        match assoc_v k mb with
-        | Some o => match veq v o with Ok true => go ma' | r => r end
-        | None => Ok false
-        end
+        worse (match assoc_v k mb with
+               | Some o => veq v o
+               | None => Ok false
+               end) (go ma')
     | [] => Ok true
     end.
 
@@ -75,8 +75,8 @@ Proof.
     destruct (negb (Nat.eqb (length m) (length mb))); auto.
     induction Hm as [|[k v] [k' v'] m m' [Hk Hv] Hm IHm]; [reflexivity|].
     simpl in Hk, Hv. subst k'. inv IH. simpl in H1.
-    cbn [veq_map]. destruct (assoc_v_rel k _ _ Hmb) as [|o o' Ho]; auto.
-    rewrite (H1 _ _ _ Hv Ho). destruct (veq v' o') as [[|]| | | |]; auto.
+    cbn [veq_map]. f_equal; [|auto].
+    destruct (assoc_v_rel k _ _ Hmb) as [|o o' Ho]; auto.
   - inv Ha. inv Hb; reflexivity.
   - inv Ha. inv Hb; reflexivity.
 Qed.
@@ -203,7 +203,11 @@ Proof.
       destruct (contains_str t s); repeat constructor.
     - inv Ha; try (apply orel_rbool).
       all: try (erewrite contains_item_rel; [apply orel_rbool| |eassumption]; constructor; eauto; fail).
-      erewrite contains_all_rel; [apply orel_rbool|eassumption|eassumption].
+      unfold contains_all_repr.
+      match goal with Hl : Forall2 vrel ?l ?l', Hk : Forall2 vrel ?k ?k' |- context [contains_all ?l ?k] =>
+        rewrite <- (Forall2_length' _ _ _ Hl), <- (Forall2_length' _ _ _ Hk);
+        destruct (true && Nat.ltb (length l) (length k)); [repeat constructor|];
+        erewrite contains_all_rel; [apply orel_rbool|eassumption|eassumption] end.
     - inv Ha; repeat constructor.
       destruct (assoc_v_rel s _ _ H); repeat constructor.
     - inv Ha; repeat constructor. }
